@@ -1,0 +1,75 @@
+//go:build verif
+
+package bcl
+
+// Hooks for the verification harness in /verif (build tag "verif").
+// They only expose existing internals; no call sites are added to the library.
+
+// VerifToken is a lexer token as the parser receives it.
+type VerifToken struct {
+	Type string
+	Val  string
+	Err  string
+	Pos  int
+}
+
+// VerifLex runs the lexer alone on the input delivered as the given chunks
+// and returns the tokens and the line table built by the line calculator.
+func VerifLex(chunks []string) ([]VerifToken, []int) {
+	c := make(chan string)
+	go func() {
+		for _, s := range chunks {
+			c <- s
+		}
+		close(c)
+	}()
+	lc := newLineCalc()
+	l := newLexer(c, lc.add)
+	var toks []VerifToken
+	for {
+		t, ok := l.nextToken()
+		if !ok {
+			break
+		}
+		vt := VerifToken{Type: t.typ.String(), Val: t.val, Pos: t.pos}
+		if t.err != nil {
+			vt.Err = t.err.Error()
+		}
+		toks = append(toks, vt)
+	}
+	lc.mu.Lock()
+	lfs := append([]int(nil), lc.lfs...)
+	lc.mu.Unlock()
+	return toks, lfs
+}
+
+// VerifLineCol is lineCalc.lineColAt over a given line table.
+func VerifLineCol(lfs []int, pos int) (int, int) {
+	lc := &lineCalc{lfs: lfs}
+	return lc.lineColAt(pos)
+}
+
+// VerifUvarintEnc is uvarintToBytes.
+func VerifUvarintEnc(x uint64) []byte {
+	var b [9]byte
+	n := uvarintToBytes(b[:], x)
+	return b[:n]
+}
+
+// VerifProgParts exposes the parts of a program.
+func VerifProgParts(p *Prog) (name string, code []byte, consts []any, positions, lfs []int) {
+	consts = make([]any, len(p.constants))
+	for i, c := range p.constants {
+		consts[i] = c
+	}
+	if p.linePos != nil {
+		lfs = p.linePos.lfs
+	}
+	return p.name, p.code, consts, p.positions, lfs
+}
+
+// VerifUnsnakeEq is the name matching rule of Bind.
+func VerifUnsnakeEq(orig, snake string) bool { return unsnakeEq(orig, snake) }
+
+// VerifOpcodeName is opcode.String.
+func VerifOpcodeName(b byte) string { return opcode(b).String() }
